@@ -55,7 +55,16 @@ impl SubCheck for C03Cli {
         }
         if let Some(b) = c.bad_in_file {
             if let Some(f) = wsx.files.get_mut(b) {
-                f.tail.push_str("\n#[typeshare]\npub struct CannotBeGenerated(pub u32, pub u32);\n");
+                // one of several annotated items typeshare cannot generate; where it sits inside the item differs
+                const BAD: [&str; 6] = [
+                    "\n#[typeshare]\npub struct CannotBeGenerated(pub u32, pub u32);\n",
+                    "\n#[typeshare]\npub struct CannotBeGenerated { pub fine: u8, pub too_wide: u64 }\n",
+                    "\n#[typeshare]\n#[serde(tag = \"t\", content = \"c\")]\npub enum CannotBeGenerated { Fine(u8), Shape { fine: u8, too_wide: i64 } }\n",
+                    "\n#[typeshare]\n#[serde(tag = \"t\", content = \"c\")]\npub enum CannotBeGenerated { Fine, Pair { both: (u8, u8) } }\n",
+                    "\n#[typeshare]\n#[serde(tag = \"t\", content = \"c\")]\npub enum CannotBeGenerated { Fine(u8), Wide(usize) }\n",
+                    "\n#[typeshare]\npub type CannotBeGenerated = Vec<Option<u64>>;\n",
+                ];
+                f.tail.push_str(BAD[(b + c.ws.files.len() + c.ws.files.iter().map(|x| x.items.len()).sum::<usize>()) % BAD.len()]);
             }
         }
         let items: Vec<Item> = wsx.files.iter().flat_map(|f| f.items.iter().cloned()).collect();
@@ -89,7 +98,7 @@ impl SubCheck for C03Cli {
                     let text = std::fs::read_to_string(&outp).unwrap_or_default();
                     out.push(Violation::new(
                         format!("cli/silent-omit/arrival-order={}", ord.unwrap_or("natural")),
-                        format!("{}: an annotated tuple struct with two fields cannot be generated, yet the run exits 0 and the output {} it (arrival order {})", lang.name(), if text.contains("CannotBeGenerated") { "contains" } else { "silently omits" }, ord.unwrap_or("natural")),
+                        format!("{}: an annotated item that cannot be generated (tuple struct / 64-bit field / tuple field, see the tree) is present, yet the run exits 0 and the output {} it (arrival order {})", lang.name(), if text.contains("CannotBeGenerated") { "contains" } else { "silently omits" }, ord.unwrap_or("natural")),
                     ));
                 }
                 continue;
